@@ -50,7 +50,7 @@ fn authorized_tsig_time_check(range: Range<u64>, now: u64) -> (r: (Result<(), Re
 {
 //%expr crates/server/src/store/sqlite/mod.rs :: impl<P: RuntimeProvider + Send + Sync> SqliteZoneHandler<P> :: authorized_tsig :: "let mut error = None;" ..< "( response, TSigResponseContext::new"
 //%sub? "range.contains(&now)" => "vp_range_contains(&range, &now)" # R-shim: core::ops::Range::contains
-//%mutant lower_bound_dropped "!vp_range_contains(&range, &now)" => "now >= range.end"
+//%mutant time_check_dropped "response = Err(ResponseCode::NotAuth);" => ""
 //%end
     (response, error)
 }
